@@ -43,7 +43,7 @@ def gen_case(rng, ctx):
     ds = libx.normalise_raw(ds)
     scls, sch = gen.scheme(rng, "S1 S2 S3 S3 S3 S4 S6 S7")
     cands = [gen.candidate(rng, ds, "random")[1] for _ in range(2)]
-    return {"ds": ds, "scheme": sch, "cands": cands, "dcls": cls, "scls": scls,
+    return {"ds": ds, "scheme": sch, "cands": cands, "dcls": cls, "scls": scls, "k": rng.choice([0.5, 2.0, 3.0]),
             "alg": rng.choice(["Copeland", "BioConsert", "parfront", "none"])}
 
 
@@ -92,6 +92,14 @@ def check_case(case, ctx):
     if ok and not np.array_equal(M, M2):
         ctx.violation("C02/positions-vs-bucket-ids-differ", "table from positions differs from table from bucket ids",
                       case, observed=M2.tolist(), expected=M.tolist())
+    # a second request on the same positions under a proportional scheme (k * scheme) must be k * table
+    k = case.get("k", 3.0)
+    sch_k = gen.scale(sch, k)
+    st4, Mk = call(PBA.pairwise_cost_matrix, dataset.get_positions(), libx.mk_scheme(sch_k))
+    ctx.count("proportional_second_calls")
+    if st4 == "ok" and ok:
+        compare_table(ctx, {**case, "scheme": sch_k, "after_scheme": sch}, Mk, ref.cost_table(ds, sch_k, elems), ids,
+                      gen.is_dyadic(sch_k), f"second call on the same positions under {k} x the scheme")
     # mirror consistency on the library's own table
     n = len(elems)
     for i in range(n):
